@@ -104,8 +104,11 @@ def run(prog: Program, rep: Report, tier: str):
             if e[0] == "eval":
                 c = e[1]
                 if c[0] == "call" and c[1][0] == "attr" and c[1][2] == "pop" and c[2] and c[2][0][0] == "elem" and T.contains(c[2][0][1], lambda s: s == fields_call):
-                    popped = True
-    rep.check(popped, "R19.2", q, f.loc, "every field name is removed from the class dict (defaults would clash with slots)", "field names are not removed from the class dict: a defaulted field makes type() raise 'conflicts with class variable'", detail="pop-fields")
+                    # all field names, not only the ones that became new slots (an inherited slot's default must go too)
+                    filtered = T.contains(c[2][0][1], lambda s: s[0] == "cmp" and s[1] == "notin")
+                    if not filtered:
+                        popped = True
+    rep.check(popped, "R19.2", q, f.loc, "every field name is removed from the class dict (defaults would clash with slots)", "not every field name is removed from the class dict (only the new slots, or none): a defaulted field makes type() raise 'conflicts with class variable', and a re-declared inherited field keeps a class attribute that shadows the base's slot", detail="pop-fields")
     # R19.3
     new_cls = None
     built = {}
